@@ -1,4 +1,5 @@
 import Proofs.C04
+import Proofs.Facts.C04
 #print axioms C04.tidy_fastpaths_agree
 #print axioms C04.tidy_uncached_spec
 #print axioms C04.tidy_spec
@@ -18,3 +19,9 @@ import Proofs.C04
 #print axioms C04.tidy_idempotent_partial
 #print axioms F64.mul_nan_canon
 #print axioms C04.tidy_idempotent
+#print axioms C04.Facts.fast_table_agrees
+#print axioms C04.Facts.prefilter_agrees
+#print axioms C04.Facts.edit_constants_agree
+#print axioms C04.Facts.apply_expr_agrees
+#print axioms C04.Facts.mayNeedTidy_agrees
+#print axioms C04.Facts.scan_agrees
